@@ -24,6 +24,7 @@ import sys
 from ..common import hexs, unhexs
 from .. import common
 from .. import itpgen as G
+from .. import topx
 
 RULE = ("generated topologies, n in 1..3000 atoms over 11 graph classes (chain, shuffled chain, tree, deep tree, star, "
         "forest, cyclic incl. self-loops/duplicates, ring, isolated first/last atom, no bonds); increasing numbering "
@@ -92,6 +93,8 @@ def generate(ctx):
                     if i not in adj[j]:
                         adj[j].append(i)
         yield {"kind": "graph", "adj": adj}
+    # work package WPE: `==` / `!=` / copy, residue getters and setters, index, read_topology dispatch
+    yield from topx.gen_c15(ctx)
 
 
 class _A:
@@ -121,6 +124,8 @@ def evaluate(ctx, case):
     from gaddlemaps.parsers import read_topology
     rng = ctx.rng
     kind = case["kind"]
+    if kind in ("eq", "res", "readtop"):
+        return topx.eval_c15(ctx, case)
 
     if kind == "graph":
         adj = [list(a) for a in case["adj"]]
